@@ -160,4 +160,160 @@ example : isValidPermutation 3 [2, 0, 1] = true ∧
     permuteIter [(2, 12), (3, 4), (4, 1)] [2, 0, 1] = [(4, 1), (2, 12), (3, 4)] ∧
     unpermute [2, 0, 1] [3, 1, 2] = [1, 2, 3] := by decide
 
+/-! ## Extended programs and chains -/
+
+theorem prodNZ_shape_perm {l l' : List (Nat × Nat)} (h : l.Perm l') :
+    prodNZ (shapeOf l) = prodNZ (shapeOf l') := by
+  induction h with
+  | nil => rfl
+  | cons x _ ih => simp only [shapeOf, List.map_cons, prodNZ] at *; rw [ih]
+  | swap x y l =>
+    simp only [shapeOf, List.map_cons, prodNZ]
+    split <;> split <;> simp [Nat.mul_left_comm]
+  | trans _ _ ih1 ih2 => rw [ih1, ih2]
+
+theorem maxOffset_perm {l l' : List (Nat × Nat)} (h : l.Perm l') : maxOffset l = maxOffset l' := by
+  induction h with
+  | nil => rfl
+  | cons x _ ih => obtain ⟨a, b⟩ := x; simp only [maxOffset, ih]
+  | swap x y l => obtain ⟨a, b⟩ := x; obtain ⟨c, d⟩ := y; simp only [maxOffset]; omega
+  | trans _ _ ih1 ih2 => rw [ih1, ih2]
+
+/-- `permute(order)` / `transpose()` on an owned tensor: `self.layout = self.layout.permuted(..)`;
+an invalid permutation panics before the assignment. -/
+def permuteOwned (t : Owned) (p : List Nat) : Owned :=
+  if isValidPermutation t.dims.length p then { t with dims := permuteIter t.dims p } else t
+
+def transposeOwned (t : Owned) : Owned :=
+  { t with dims := permuteIter t.dims (List.range t.dims.length).reverse }
+
+theorem osafe_permuteIter {t : Owned} {p : List Nat} (hp : p.Perm (List.range t.dims.length))
+    (hs : OSafe t) : OSafe { t with dims := permuteIter t.dims p } := by
+  have hperm := permuteIter_perm hp
+  exact ⟨vsafe_permuteIter hp hs.vsafe, hs.cap,
+    by show prodNZ (shapeOf (permuteIter t.dims p)) ≤ _
+       rw [prodNZ_shape_perm hperm]; exact hs.shape_fits,
+    by show maxOffset (permuteIter t.dims p) < _
+       rw [maxOffset_perm hperm]; exact hs.offset_fits⟩
+
+/-- Every mutating call on an owned tensor that has a preservation theorem. -/
+inductive OwnedOpY where
+  | x (op : OwnedOpX)
+  | permute (order : List Nat)
+  | transpose
+  deriving DecidableEq, Repr
+
+def stepOwnedY (t : Owned) : OwnedOpY → Owned
+  | .x op => stepOwnedX t op
+  | .permute p => permuteOwned t p
+  | .transpose => transposeOwned t
+
+/-- **C06.T2y** any program of `clip_dim`, `append`, `reshape`, `make_contiguous`, `remove_axis`,
+`insert_axis`, `move_axis`, `permute` and `transpose` calls (successful or failing) on an owned
+tensor preserves the invariant `OSafe` (in-storage, injective, within capacity, size guards). -/
+theorem c06_T2_owned_programY (ops : List OwnedOpY) {t : Owned} (hs : OSafe t) :
+    OSafe (ops.foldl stepOwnedY t) := by
+  induction ops generalizing t with
+  | nil => exact hs
+  | cons op ops ih =>
+    apply ih
+    cases op with
+    | x op => exact c06_T2_owned_programX [op] hs
+    | permute p =>
+      simp only [stepOwnedY, permuteOwned]
+      split
+      · next hp => exact osafe_permuteIter (valid_perm hp) hs
+      · exact hs
+    | transpose => exact osafe_permuteIter (List.reverse_perm _) hs
+
+/-- View-producing / view-editing calls with a preservation theorem. -/
+inductive ViewOpX where
+  | base (op : ViewOp)
+  | permuted (order : List Nat)
+  | transposed
+  | indexAxis (axis index : Nat)
+  | removeAxis (index : Nat)
+  | insertAxis (index : Nat)
+  | moveAxis (src dst : Nat)
+  deriving DecidableEq, Repr
+
+def applyViewX (mutable : Bool) (v : AView) : ViewOpX → Option AView
+  | .base op => applyView mutable v op
+  | .permuted p =>
+    if isValidPermutation v.dims.length p then some { v with dims := permuteIter v.dims p } else none
+  | .transposed => some { v with dims := permuteIter v.dims (List.range v.dims.length).reverse }
+  | .indexAxis axis index => (indexAxis v.dims v.len axis index).map v.sub
+  | .removeAxis i => (removeAxis v.dims i).map (fun d => { v with dims := d })
+  | .insertAxis i => (insertAxis v.dims i).map (fun d => { v with dims := d })
+  | .moveAxis s d => (moveAxis v.dims s d).map (fun x => { v with dims := x })
+
+def runViewsX (mutable : Bool) : AView → List ViewOpX → Option AView
+  | v, [] => some v
+  | v, op :: ops =>
+    match applyViewX mutable v op with
+    | none => none
+    | some w => runViewsX mutable w ops
+
+theorem c06_T2_view_stepX {m : Bool} {v w : AView} {op : ViewOpX}
+    (hs : VSafe m v.dims v.len) (h : applyViewX m v op = some w) :
+    VSafe m w.dims w.len ∧ v.base ≤ w.base ∧ w.base + w.len ≤ v.base + v.len := by
+  have hax := c06_T2_axis_edits (d' := w.dims) hs
+  cases op with
+  | base op => exact c06_T2_view_step hs h
+  | permuted p =>
+    simp only [applyViewX] at h
+    split at h
+    · next hp => cases h; exact ⟨c06_T2_permuted hp hs, Nat.le_refl _, Nat.le_refl _⟩
+    · cases h
+  | transposed =>
+    simp only [applyViewX, Option.some.injEq] at h
+    subst h
+    exact ⟨vsafe_permuteIter (List.reverse_perm _) hs, Nat.le_refl _, Nat.le_refl _⟩
+  | indexAxis axis index =>
+    simp only [applyViewX, Option.map_eq_some_iff] at h
+    obtain ⟨x, hx, rfl⟩ := h
+    obtain ⟨h1, h2, hb, hi⟩ := c06_T2_indexAxis hx
+    exact ⟨⟨fun j hj => by have := (hb j hj).1; simp only [AView.sub]; omega,
+      fun hm => hi (hs.inj hm)⟩, sub_facts h1 h2⟩
+  | removeAxis i =>
+    simp only [applyViewX, Option.map_eq_some_iff] at h
+    obtain ⟨x, hx, rfl⟩ := h
+    exact ⟨hax.1 i hx, Nat.le_refl _, Nat.le_refl _⟩
+  | insertAxis i =>
+    simp only [applyViewX, Option.map_eq_some_iff] at h
+    obtain ⟨x, hx, rfl⟩ := h
+    exact ⟨hax.2.1 i hx, Nat.le_refl _, Nat.le_refl _⟩
+  | moveAxis s d =>
+    simp only [applyViewX, Option.map_eq_some_iff] at h
+    obtain ⟨x, hx, rfl⟩ := h
+    exact ⟨hax.2.2 s d hx, Nat.le_refl _, Nat.le_refl _⟩
+
+/-- **C06.T2z** any chain of slices, axis slices, split halves, broadcasts (immutable), permutations,
+transpositions, `index_axis`, `remove_axis`, `insert_axis`, `move_axis` starting from a `VSafe`
+view yields a `VSafe` view whose storage lies inside the starting view's storage. -/
+theorem c06_T2_view_chainX {m : Bool} : ∀ (ops : List ViewOpX) {v w : AView},
+    VSafe m v.dims v.len → runViewsX m v ops = some w →
+    VSafe m w.dims w.len ∧ v.base ≤ w.base ∧ w.base + w.len ≤ v.base + v.len := by
+  intro ops
+  induction ops with
+  | nil =>
+    intro v w hs h
+    simp only [runViewsX, Option.some.injEq] at h
+    subst h
+    exact ⟨hs, Nat.le_refl _, Nat.le_refl _⟩
+  | cons op ops ih =>
+    intro v w hs h
+    simp only [runViewsX] at h
+    split at h
+    · cases h
+    · next u hu =>
+      obtain ⟨hsu, h1, h2⟩ := c06_T2_view_stepX hs hu
+      obtain ⟨hsw, h3, h4⟩ := ih hsu h
+      exact ⟨hsw, by omega, by omega⟩
+
+/-- Non-vacuity: transpose a 3×4 view, take row 1 of the result, insert an axis, slice it. -/
+example : runViewsX true ⟨0, 12, [(3, 4), (4, 1)]⟩
+      [.transposed, .indexAxis 0 1, .insertAxis 0, .base (.sliceAxis 1 1 3)] =
+    some ⟨5, 5, [(1, 12), (2, 4)]⟩ := by decide
+
 end RtenVerif.TensorBounds
